@@ -47,7 +47,7 @@ def compact(events, ifi="vf0", conf=False):
             f = CNT.get(e["name"])
             c = f(e["labels"]) if f else None
             if c and e["labels"].split("|")[0] == ifi:
-                out.append({"ev": ev, "c": c, "t": t})
+                out.append({"ev": ev, "c": c, "v": int(round(float(e.get("v", 1)) * 1000)), "t": t})
         elif ev in ("scrape_call", "api_call"):
             out.append({"ev": "qcall", "t": t})
         elif ev == "scrape":
